@@ -12,7 +12,7 @@ EXPLANATION = (
     "StrainsVec::push store `value` only under the same positivity test and a zero otherwise (sibling normalisation). Numerical "
     "equivalence of the compact and the raw StrainsVec bodies is NOT decided (they treat negative/NaN pushes "
     "differently; equality needs every pushed strain >= 0)."
-    " R5: sum / iter / into_vec of both bodies traverse the whole list (no truncating adaptor applied to the list itself, private helpers followed)."
+    " R5: sum / iter / into_vec / clone of both bodies traverse the whole list (no truncating adaptor applied to the list itself — for clone no filtering one either —, private helpers followed)."
     " R6: the compact body keeps its element count in a field that retain_non_zero* does not maintain (the raw body answers Vec::len()): no caller may ask len()/iter() on a list after a count-desynchronising call on it (helpers inlined; the rule discharges itself once every shrinking method maintains the count)."
 )
 
@@ -194,6 +194,7 @@ def r4_push(ctx, facts):
 
 # ---- R5: the consumers that do not sort first (sum, iter, into_vec) traverse the WHOLE list in both bodies
 TRUNCATING = ('take_while', 'take', 'skip', 'skip_while', 'step_by', 'map_while', 'truncate', 'split_at', 'split_first', 'split_last')
+FILTERING = ('filter', 'filter_map', 'retain', 'retain_mut', 'dedup', 'dedup_by', 'dedup_by_key')          # a copy must not drop entries either
 
 
 def r5_whole_traversal(ctx, facts):
@@ -201,8 +202,8 @@ def r5_whole_traversal(ctx, facts):
     n = 0
     for cname in ('default', 'raw_strains'):
         F = facts[cname]
-        for name in ('sum', 'iter', 'into_vec'):
-            f = F.fn('util::strains_vec::inner::StrainsVec::%s' % name)
+        for name in ('sum', 'iter', 'into_vec', 'clone'):
+            f = F.fn('util::strains_vec::inner::StrainsVec::%s' % name) or (F.method('util::strains_vec::inner::StrainsVec', 'clone', trait='std::clone::Clone') if name == 'clone' else None)
             if f is None:
                 ctx.violation('C10-R5', 'anchor-missing:%s:%s' % (name, cname), 'StrainsVec::%s not found in configuration %s' % (name, cname))
                 continue
@@ -216,7 +217,7 @@ def r5_whole_traversal(ctx, facts):
                 seen.add(g.path)
                 for bi, t in g.calls():
                     nm = t['func'].get('name')
-                    if nm in TRUNCATING and (t['func'].get('krate') in ('core', 'std', 'alloc')) and \
+                    if (nm in TRUNCATING or (name == 'clone' and nm in FILTERING)) and (t['func'].get('krate') in ('core', 'std', 'alloc')) and \
                             any(x[0] == 'field' and x[2] == 'inner' for x in prov.walk(prov.prov_of(g).call_args(bi)[0], limit=80)):
                         # only a cut of the list itself counts (`repeat(0.0).take(n)` for a zero run is fine)
                         cuts.append('%s in %s (line %s)' % (nm, g.path.split('::')[-1], t.get('ln')))
@@ -228,7 +229,7 @@ def r5_whole_traversal(ctx, facts):
                         bad='StrainsVec::%s [%s] goes through %s: on an unsorted list of section peaks it stops at the first zero section, while the sibling '
                             'body takes every section into account — the two feature configurations give different results (flashlight rating, exported strains)' % (
                                 name, cname, '; '.join(cuts)))
-    ctx.floor('C10-R5', n, 6, 'whole-list consumers of StrainsVec (sum, iter, into_vec in both bodies)')
+    ctx.floor('C10-R5', n, 6, 'whole-list consumers of StrainsVec (sum, iter, into_vec, clone in both bodies)')
 
 
 # ---- R6: the compact body keeps its element count in a separate field; a method that shrinks the list without maintaining that count
